@@ -59,6 +59,11 @@ Definition irt (e : env) (t : Z) : Z :=
 Definition stopped (e : env) (t : Z) : bool :=
   match v_stop e with Some s => s <=? t | None => false end.
 
+(* Which events are essential changes (`v_resets`/`v_late`): processing._detect_causes gives the spawning cause
+   `reset = bool(diff(last-handled essence, essence))`, and process_spawning_cause then assigns idle_reset_time.
+   The raw event's type (ADDED / MODIFIED / DELETED / None for a (re-)listing) is NOT an argument. *)
+Definition reset_flag (has_last_handled essence_changed : bool) : bool := negb has_last_handled || essence_changed.
+
 (* ---------------------------------------------------------------- aiotime.sleep(delay, wakeup=stopper.async_event) *)
 Inductive sres := Woke (t : Z) | PastHorizon.
 
